@@ -35,7 +35,9 @@ type TypeCat struct {
 func post(url string, body []byte) proto.Req {
 	return proto.Req{Client: "c0", Kind: "http", Method: "POST", URL: url, Body: body}
 }
-func del(url string) proto.Req { return proto.Req{Client: "c0", Kind: "http", Method: "DELETE", URL: url} }
+func del(url string) proto.Req {
+	return proto.Req{Client: "c0", Kind: "http", Method: "DELETE", URL: url}
+}
 func getb(url string, body []byte) proto.Req {
 	return proto.Req{Client: "c0", Kind: "http", Method: "GET", URL: url, Body: body}
 }
